@@ -1,5 +1,6 @@
 From RsdnsModel Require Import Base GenReader Cursor Names Labels Header Tracker RData Reader Script Iter.
-From RsdnsModel.Proofs Require Import CursorSafe LabelsSound Views RandAccess Flavours IterAgree.
+From RsdnsModel.Spec Require Import WireName.
+From RsdnsModel.Proofs Require Import CursorSafe LabelsSound Views RandAccess Flavours IterAgree NameRefEq.
 From RsdnsModel.Properties Require Import C08.
 Open Scope N_scope.
 Check (C08_name_types_agree : forall msg c, read_name msg Heap c = read_name msg Inline c).
@@ -34,4 +35,11 @@ Check (C08_iterator_skip_is_reader_skip : forall msg f r it c1 ty cl ttl rdlen,
   records_read_impl msg (S f) it = records_read_impl msg f (mkRecIt c2 tr2 (ri_err it)) /\
   exists r1 mk r2, rd_marker msg r = (r1, Ok (OMarker mk)) /\ m_rtype mk = ty /\ m_rclass mk = cl /\
     rd_skip_data mk r1 = (r2, Ok OUnit) /\ r_cur r2 = c2 /\ r_tr r2 = tr2 /\ r_done r2 = false).
-Print Assumptions C08_name_types_agree. Print Assumptions C08_read_implies_skip. Print Assumptions C08_random_access_view. Print Assumptions C08_header_flavours_agree. Print Assumptions C08_iterator_item_is_reader_item. Print Assumptions C08_iterator_skip_is_reader_skip.
+Check (C08_nameref_eq_is_decoded_eq : forall msg nk c1 c2 t1 t2 c1' c2',
+  cwf msg c1 -> cwf msg c2 -> vis msg c1 = vis msg c2 ->
+  read_name msg nk c1 = Ok (t1, c1') -> read_name msg nk c2 = Ok (t2, c2') ->
+  nameref_eq msg c1 c2 = Ok (name_eq t1 t2)).
+Check (C08_label_iteration_is_expansion : forall msg c ls,
+  cwf msg c -> expands (vis msg c) None 0 (pos c) ls ->
+  Forall (fun l => label_ok (snd l) = true) ls -> labels_drain msg c = Ok (ls, None)).
+Print Assumptions C08_name_types_agree. Print Assumptions C08_read_implies_skip. Print Assumptions C08_random_access_view. Print Assumptions C08_header_flavours_agree. Print Assumptions C08_iterator_item_is_reader_item. Print Assumptions C08_iterator_skip_is_reader_skip. Print Assumptions C08_nameref_eq_is_decoded_eq. Print Assumptions C08_label_iteration_is_expansion.
